@@ -44,9 +44,109 @@ def run(ctx, rep):
         check_unchanged_on_error(fx, rep)
         check_bounds(fx, rep)
         check_unsafe_pops(ctx, rep)
+        check_push_slice_fill(fx, rep)
     finally:
         rt.NUMERIC_CONSTS = old
     rep.assume('`assume!`/debug assertions are not relied on: only explicit comparisons count as guards')
+
+
+def check_push_slice_fill(fx, rep):
+    """R4: push_slice claims whole words with set_len and then writes 64-bit limbs; i counts the data
+    limbs written.  On every exit the limbs between i and the next word boundary are zeroed, and no
+    more: for every residue of i modulo 4 the zero fill starts at limb i and covers (4 - i % 4) % 4
+    limbs.  (Otherwise the pushed word keeps whatever the slot held before.)"""
+    from symx import Symx, Budget, render
+    import c23
+    f = fx.fns.get(S + 'push_slice')
+    if f is None:
+        rep.undecided('R4-push-slice-fill', 'push_slice', 'not found')
+        return
+    rep.fn(f)
+    try:
+        rs = Symx(fx, max_paths=20000, snapshot_refs=True, loop_symbolic=True).run(f)
+    except Budget:
+        rep.undecided('R4-push-slice-fill', 'push_slice', 'path budget', f.where())
+        return
+
+    def limbs_of(e):
+        short = e[0].split('::')[-1]
+        if short == 'write_bytes' and len(e[1]) == 3 and e[1][1] == ('k', 0):
+            return ('count', e[1][2])
+        if short == 'write' and len(e[1]) == 2:
+            v = e[1][1]
+            if v == ('k', 0):
+                return ('const', 1)
+            if v[0] == 'agg' and v[4] and all(x == ('k', 0) for x in v[4]):
+                return ('const', len(v[4]))
+            if v[0] == 'repeat' and v[1] == ('k', 0) and str(v[2]).isdigit():
+                return ('const', int(v[2]))
+        return None
+
+    bad = None
+    cells = 0
+    exits = [r for r in rs if not r.cut and r.ret[0] == 'agg' and r.ret[2] == 'Ok']
+    data_exits = 0
+    for r in exits:
+        has_i = any('loop:i' in render(l[0]) for l in r.lits) or any('loop:i' in render(a) for e in r.events for a in e[1])
+        if not has_i:
+            continue            # no partial word on this exit (empty slice / only full words)
+        data_exits += 1
+        # the final limb index: the operand of the `% 4` test, else the offset of the last data write
+        for v in range(4, 12):
+            env = {'loop:i': v, '__sym__': lambda r_: None}
+            ok = True
+            final = None
+            for (sv, lit, _f, _b) in r.lits:
+                txt = render(sv)
+                if 'loop:i' not in txt or 'len(' in txt:
+                    continue
+                try:
+                    val = c23.ev(sv, env)
+                except c23.NoValue:
+                    continue
+                if (lit[0] == 'eq' and val != lit[1]) or (lit[0] == 'ne' and val in lit[1]):
+                    ok = False
+                if sv[0] == 'bin' and sv[2][0] == 'bin' and sv[2][1] == 'Rem':
+                    try:
+                        final = c23.ev(sv[2][2], env)
+                    except c23.NoValue:
+                        pass
+            if not ok:
+                continue
+            if final is None:
+                # index after the last data write of the path
+                final = v + (1 if any('Add(loop:i, 1)' in render(l[0]) for l in r.lits) else 0)
+            zero = 0
+            start = None
+            unknown = False
+            for e in r.events:
+                lm = limbs_of(e)
+                if e[0].split('::')[-1] in ('write_bytes',) or (e[0].split('::')[-1] == 'write' and lm is not None):
+                    if lm is None:
+                        unknown = True
+                        continue
+                    try:
+                        cnt = c23.ev(lm[1], env) if lm[0] == 'count' else lm[1]
+                    except c23.NoValue:
+                        unknown = True
+                        continue
+                    zero += cnt
+            cells += 1
+            want = (4 - final % 4) % 4
+            if unknown:
+                bad = 'zero fill not evaluable'
+            elif zero != want:
+                bad = 'with %d data limbs written (i %% 4 = %d) the zero fill covers %d limb(s), %d are needed to complete the word: the upper part of the pushed word keeps stale data' % (final, final % 4, zero, want)
+            if bad:
+                break
+        if bad:
+            break
+    if not bad and (data_exits < 2 or cells < 8):
+        bad = 'exit paths not recognised (%d exits with a partial word, %d cells)' % (data_exits, cells)
+    if bad:
+        rep.violation('R4-push-slice-fill', 'push_slice', 'Stack::push_slice: ' + bad, f.where())
+    else:
+        rep.ok('R4-push-slice-fill', 'push_slice', 'zero fill completes the last word for every residue (%d cells)' % cells)
 
 
 def check_unchanged_on_error(fx, rep):
